@@ -346,4 +346,228 @@ Proof.
     + apply (HB v2); [simpl; lia|assumption].
 Qed.
 
+(* sufficient conditions for atoms to be readable *)
+Lemma sflags_ff : forall l first, sflags l first false false = (false, false).
+Proof.
+  induction l as [|c l IH]; intros first; [reflexivity|]. cbn [sflags].
+  destruct (N.eqb c c_minus); [destruct first; apply IH|].
+  destruct (is_digit c); [apply IH|]. destruct (N.eqb c c_dot); apply IH.
+Qed.
+
+(* a name that starts with neither a digit nor a minus sign and contains no delimiter *)
+Lemma plain_symbol c n : ordinary c = true -> is_digit c = false -> N.eqb c c_minus = false ->
+  nostop (c :: n) = true -> atom_ok (c :: n) (TIdent (c :: n)).
+Proof.
+  intros Ho Hd Hm Hn. exists c, n. split; [reflexivity|]. split; [exact Ho|]. split; [exact Hn|].
+  unfold classify. cbn [sflags]. rewrite Hm, Hd.
+  assert (Hdot : N.eqb c c_dot = false).
+  { unfold ordinary in Ho. apply negb_true_iff in Ho.
+    repeat (apply orb_false_iff in Ho; destruct Ho as [Ho ?]). assumption. }
+  rewrite Hdot, sflags_ff. reflexivity.
+Qed.
+
+(* ---- the whole token stream, and reading -------------------------------------------------- *)
+Lemma steps_tokenize : forall cs ts, steps cs ts [] ->
+  forall fuel line pos, List.length cs < fuel -> (1 <= pos)%N ->
+  exists tsp, tokenize F fuel cs line pos = Ok tsp /\ map fst tsp = ts.
+Proof.
+  intros cs ts H. remember (@nil cp) as e eqn:He.
+  induction H as [cs|cs t cs' ts cs'' Hnt Hs IH]; intros fuel line pos Hf Hp.
+  - subst. destruct fuel; [simpl in Hf; lia|]. exists []. split; reflexivity.
+  - destruct fuel; [lia|]. cbn [tokenize].
+    destruct (Hnt (S (List.length cs)) line pos ltac:(lia)) as (sp & l & p & E).
+    destruct (next_tok_good F (S (List.length cs)) cs line pos ltac:(lia) Hp) as [G E0].
+    rewrite E in G. simpl in G. destruct G as [G1 G2]. rewrite E.
+    assert (Hne : cs <> []) by (intros ->; specialize (E0 eq_refl); congruence).
+    assert (Hlt : List.length cs' < List.length cs) by (destruct cs; [congruence|simpl in *; lia]).
+    destruct (IH He fuel l p ltac:(lia) G2) as (tsp & Et & Em). rewrite Et.
+    exists ((t, sp) :: tsp). split; [reflexivity|]. simpl. f_equal. assumption.
+Qed.
+
+(* C09: reading the printed text of a value gives the value back *)
+Theorem print_read fl : t_interned fl = false -> nil_interned fl = false ->
+  forall v, rd v -> exists a, read_ax F fl (print F v) = Ok [a] /\ strip a = v.
+Proof.
+  intros Ht Hn v Hv.
+  pose proof (proj1 (lex_all (S (sx_size v)) v ltac:(lia)) Hv [] (or_introl eq_refl)) as Hs.
+  rewrite app_nil_r in Hs. unfold read_ax.
+  destruct (steps_tokenize _ _ Hs (S (List.length (print F v))) 1%N 1%N ltac:(lia) ltac:(lia))
+    as (tsp & Et & Em).
+  rewrite Et.
+  destruct (parse_inverts_value fl Ht Hn v (rd_rdata v Hv) (S (2 * List.length tsp)) tsp [] Em ltac:(lia))
+    as (a & Ep & Es).
+  rewrite app_nil_r in Ep.
+  exists a. split; [|exact Es].
+  cbn [parse_all]. rewrite Ep. destruct (List.length tsp) as [|n] eqn:El.
+  - destruct tsp; [|discriminate]. simpl in Em. destruct (toks_nonempty v (eq_sym Em)).
+  - cbn [parse_all]. reflexivity.
+Qed.
+
+(* ---- any layout: white space and comments between the tokens ------------------------------ *)
+Definition wsb (c : cp) : bool := N.eqb c c_nl || N.eqb c c_sp || N.eqb c c_cr || N.eqb c c_tab.
+Definition no_nl (body : text) : bool := forallb (fun c => negb (N.eqb c c_nl)) body.
+
+(* a gap: white space characters and whole comments, in any order *)
+Inductive isgap : text -> Prop :=
+| gap_nil : isgap []
+| gap_ws c g : wsb c = true -> isgap g -> isgap (c :: g)
+| gap_comment body g : no_nl body = true -> isgap g -> isgap (c_semi :: body ++ c_nl :: g).
+
+(* what may follow the last token: a gap, possibly ending in a comment without a line end *)
+Inductive istrail : text -> Prop :=
+| trail_nil : istrail []
+| trail_ws c g : wsb c = true -> istrail g -> istrail (c :: g)
+| trail_comment body g : no_nl body = true -> istrail g -> istrail (c_semi :: body ++ c_nl :: g)
+| trail_open body : no_nl body = true -> istrail (c_semi :: body).
+
+Lemma skip_comment_body : forall body rest line pos, no_nl body = true ->
+  exists l p, skip_comment (body ++ c_nl :: rest) line pos = Some (rest, l, p).
+Proof.
+  induction body as [|c body IH]; intros rest line pos Hb; simpl.
+  - unfold advance. ceval. eauto.
+  - simpl in Hb. apply andb_true_iff in Hb as [Hc Hb]. apply negb_true_iff in Hc.
+    destruct (advance c line pos) as [l1 p1]. rewrite Hc. apply IH. assumption.
+Qed.
+
+Lemma skip_comment_open : forall body line pos, no_nl body = true -> skip_comment body line pos = None.
+Proof.
+  induction body as [|c body IH]; intros line pos Hb; simpl; [reflexivity|].
+  simpl in Hb. apply andb_true_iff in Hb as [Hc Hb]. apply negb_true_iff in Hc.
+  destruct (advance c line pos) as [l1 p1]. rewrite Hc. apply IH. assumption.
+Qed.
+
+Lemma nt_comment body cs t rest : no_nl body = true ->
+  nt cs t rest -> nt (c_semi :: body ++ c_nl :: cs) t rest.
+Proof.
+  intros Hb H fuel line pos Hf. destruct fuel as [|fuel]; [lia|]. cbn [next_tok].
+  unfold advance at 1. ceval.
+  destruct (skip_comment_body body cs line (N.succ pos) Hb) as (l & p & E). rewrite E.
+  apply H. simpl in Hf. rewrite app_length in Hf. simpl in Hf. lia.
+Qed.
+
+Lemma nt_gap g : isgap g -> forall cs t rest, nt cs t rest -> nt (g ++ cs) t rest.
+Proof.
+  induction 1 as [|c g Hc _ IH|body g Hb _ IH]; intros cs t rest H; simpl.
+  - exact H.
+  - apply nt_ws; [exact Hc|]. apply IH. exact H.
+  - rewrite <- app_assoc. simpl. apply nt_comment; [exact Hb|]. apply IH. exact H.
+Qed.
+
+Lemma trail_end g : istrail g ->
+  forall fuel line pos, List.length g < fuel -> next_tok F fuel g line pos = Ok None.
+Proof.
+  induction 1 as [|c g Hc _ IH|body g Hb _ IH|body Hb]; intros fuel line pos Hf;
+    (destruct fuel as [|fuel]; [lia|]); cbn [next_tok].
+  - reflexivity.
+  - destruct (advance c line pos) as [l1 p1]. unfold wsb in Hc. rewrite Hc. apply IH. simpl in Hf. lia.
+  - unfold advance at 1. ceval.
+    destruct (skip_comment_body body g line (N.succ pos) Hb) as (l & p & E). rewrite E.
+    apply IH. simpl in Hf. rewrite app_length in Hf. simpl in Hf. lia.
+  - unfold advance at 1. ceval. rewrite skip_comment_open by assumption. reflexivity.
+Qed.
+
+(* the written form of one token *)
+Inductive ltok :=
+| LAtom (n : text) (t : tok)       (* an identifier or number, read as t *)
+| LStr (s : text)
+| LOpen | LClose | LQuote | LBtick | LDot | LComma | LSplice.
+
+Definition ltext (k : ltok) : text :=
+  match k with
+  | LAtom n _ => n
+  | LStr s => c_dq :: escape_string s ++ [c_dq]
+  | LOpen => [c_lp] | LClose => [c_rp] | LQuote => [c_quote] | LBtick => [c_btick]
+  | LDot => [c_dot] | LComma => [c_comma] | LSplice => [c_comma; c_at]
+  end.
+
+Definition ltoken (k : ltok) : tok :=
+  match k with
+  | LAtom _ t => t | LStr s => TStr s
+  | LOpen => TOpen | LClose => TClose | LQuote => TQuote | LBtick => TBacktick
+  | LDot => TDot | LComma => TComma | LSplice => TSplice
+  end.
+
+Fixpoint render (items : list (text * ltok)) (trail : text) : text :=
+  match items with
+  | [] => trail
+  | (g, k) :: r => g ++ ltext k ++ render r trail
+  end.
+
+(* gaps are gaps; an identifier or number is followed by white space, a closing     *)
+(* parenthesis or the end of the text; a comma is followed by something other than @ *)
+Fixpoint wfl (items : list (text * ltok)) (trail : text) : Prop :=
+  match items with
+  | [] => istrail trail
+  | (g, k) :: r =>
+      isgap g /\ wfl r trail /\
+      match k with
+      | LAtom n t => atom_ok n t /\ term (render r trail)
+      | LComma => exists c rest, render r trail = c :: rest /\ c <> c_at
+      | _ => True
+      end
+  end.
+
+Inductive steps_to (e : text) : text -> list tok -> Prop :=
+| st_nil : steps_to e e []
+| st_cons cs t cs' ts : nt cs t cs' -> steps_to e cs' ts -> steps_to e cs (t :: ts).
+
+Lemma layout_steps : forall items trail, wfl items trail ->
+  steps_to trail (render items trail) (map (fun it => ltoken (snd it)) items).
+Proof.
+  induction items as [|[g k] r IH]; intros trail H; simpl in *.
+  - constructor.
+  - destruct H as (Hg & Hr & Hk). econstructor; [|apply IH; exact Hr].
+    apply nt_gap; [exact Hg|].
+    destruct k; simpl.
+    + destruct Hk as [(c & n' & -> & Ho & Hn & <-) Ht]. apply nt_atom; assumption.
+    + rewrite <- app_assoc. apply nt_str.
+    + apply nt_open.
+    + apply nt_close.
+    + apply nt_quote.
+    + apply nt_btick.
+    + apply nt_dot.
+    + destruct Hk as (c & rest & -> & Hc). apply nt_comma. exact Hc.
+    + apply nt_splice.
+Qed.
+
+Lemma steps_to_tokenize e : (forall fuel line pos, List.length e < fuel -> next_tok F fuel e line pos = Ok None) ->
+  forall cs ts, steps_to e cs ts ->
+  forall fuel line pos, List.length cs < fuel -> (1 <= pos)%N ->
+  exists tsp, tokenize F fuel cs line pos = Ok tsp /\ map fst tsp = ts.
+Proof.
+  intros He cs ts H.
+  induction H as [|cs t cs' ts Hnt Hs IH]; intros fuel line pos Hf Hp.
+  - destruct fuel; [lia|]. exists []. cbn [tokenize]. rewrite He by lia. split; reflexivity.
+  - destruct fuel; [lia|]. cbn [tokenize].
+    destruct (Hnt (S (List.length cs)) line pos ltac:(lia)) as (sp & l & p & E).
+    destruct (next_tok_good F (S (List.length cs)) cs line pos ltac:(lia) Hp) as [G E0].
+    rewrite E in G. simpl in G. destruct G as [G1 G2]. rewrite E.
+    assert (Hne : cs <> []) by (intros ->; specialize (E0 eq_refl); congruence).
+    assert (Hlt : List.length cs' < List.length cs) by (destruct cs; [congruence|simpl in *; lia]).
+    destruct (IH fuel l p ltac:(lia) G2) as (tsp & Et & Em). rewrite Et.
+    exists ((t, sp) :: tsp). split; [reflexivity|]. simpl. f_equal. assumption.
+Qed.
+
+(* C09: a text that writes the tokens of a value in any layout reads as that value *)
+Theorem layout_read fl : t_interned fl = false -> nil_interned fl = false ->
+  forall v items trail, rdata v -> wfl items trail ->
+  map (fun it => ltoken (snd it)) items = toks v ->
+  exists a, read_ax F fl (render items trail) = Ok [a] /\ strip a = v.
+Proof.
+  intros Ht Hn v items trail Hv Hw Hm.
+  pose proof (layout_steps items trail Hw) as Hs. rewrite Hm in Hs. unfold read_ax.
+  assert (Htr : istrail trail).
+  { clear -Hw. induction items as [|[g k] r IH]; simpl in Hw; [exact Hw|]. apply IH. apply Hw. }
+  destruct (steps_to_tokenize trail (trail_end trail Htr) _ _ Hs
+              (S (List.length (render items trail))) 1%N 1%N ltac:(lia) ltac:(lia)) as (tsp & Et & Em).
+  rewrite Et.
+  destruct (parse_inverts_value fl Ht Hn v Hv (S (2 * List.length tsp)) tsp [] Em ltac:(lia))
+    as (a & Ep & Es).
+  rewrite app_nil_r in Ep.
+  exists a. split; [|exact Es].
+  cbn [parse_all]. rewrite Ep. destruct (List.length tsp) as [|n] eqn:El.
+  - destruct tsp; [|discriminate]. simpl in Em. destruct (toks_nonempty v (eq_sym Em)).
+  - cbn [parse_all]. reflexivity.
+Qed.
+
 End Lex.
